@@ -45,8 +45,12 @@ impl Storage {
         let _guard = BucketGuard::lock(self, wal_key).await?;
         let engine = self.engine.clone();
         let key = wal_key.to_string();
+        #[cfg(feature = "verif")]
+        crate::verif_events::record("write_begin", &format!("{:p}|{}", self, wal_key));
         tokio::task::spawn_blocking(move || engine.batch_append_for_topic(&key, &[&data]))
             .await??;
+        #[cfg(feature = "verif")]
+        crate::verif_events::record("write_end", &format!("{:p}|{}", self, wal_key));
         Ok(())
     }
 
@@ -98,8 +102,12 @@ struct BucketGuard<'a> {
 impl<'a> BucketGuard<'a> {
     async fn lock(storage: &'a Storage, wal_key: &str) -> Result<Self> {
         storage.ensure_lease(wal_key).await?;
+        #[cfg(feature = "verif")]
+        crate::verif_events::sched_point("bucket_after_ensure_lease");
         let lock = storage.lock_for_key(wal_key).await;
         let guard = lock.lock_owned().await;
+        #[cfg(feature = "verif")]
+        crate::verif_events::sched_point("bucket_after_key_lock");
         Ok(Self {
             _lock: guard,
             _storage: storage,
